@@ -46,3 +46,9 @@ Theorem C11_add_preserves_edge_invariant :
   forall h c v vid, no_pseudo h -> Inv h -> Inv (fst (variant_add h c v vid)).
 Proof. exact variant_add_preserves_inv. Qed.
 Print Assumptions C11_add_preserves_edge_invariant.
+
+Theorem C11_get_variants_ordered_by_uid :
+  forall fuel h c arch types recursive,
+  Sorting.Sorted.StronglySorted (uid_le h) (get_variants fuel h c arch types recursive).
+Proof. exact get_variants_sorted. Qed.
+Print Assumptions C11_get_variants_ordered_by_uid.
